@@ -10,6 +10,8 @@ CONSTANTS
   PRICE = {10}
   QTY = {1}
   BUNDLE = {"lim"}
+  STALL = {3}
+  LateResponseOK = TRUE
 INVARIANTS TypeOK
 PROPERTIES Answers
 CHECK_DEADLOCK FALSE
